@@ -301,10 +301,19 @@ impl DirImage {
 /// Per-process scratch root in tmpfs, removed on drop.
 pub struct Scratch {
     pub root: PathBuf,
+    /// the directory belongs to another (parent) process, which removes it
+    borrowed: bool,
 }
 
 impl Scratch {
     pub fn new(tag: &str) -> Self {
+        // a child whose scratch must outlive it (it is going to be killed; stale-scratch cleaning
+        // goes by the pid in the name) works below a directory owned by its parent
+        if let Ok(r) = std::env::var("MC_SCRATCH_ROOT") {
+            let root = PathBuf::from(r).join(tag);
+            std::fs::create_dir_all(&root).unwrap();
+            return Scratch { root, borrowed: true };
+        }
         let base = if Path::new("/dev/shm").is_dir() {
             PathBuf::from("/dev/shm")
         } else {
@@ -313,7 +322,7 @@ impl Scratch {
         let root = base.join(format!("nomt-mc.{}.{}", tag, std::process::id()));
         let _ = std::fs::remove_dir_all(&root);
         std::fs::create_dir_all(&root).unwrap();
-        Scratch { root }
+        Scratch { root, borrowed: false }
     }
     pub fn dir(&self, name: &str) -> PathBuf {
         self.root.join(name)
@@ -322,6 +331,9 @@ impl Scratch {
 
 impl Drop for Scratch {
     fn drop(&mut self) {
+        if self.borrowed {
+            return;
+        }
         if std::env::var("MC_KEEP").is_ok() {
             eprintln!("MC_KEEP: leaving {}", self.root.display());
             return;
